@@ -4,6 +4,7 @@ import (
 	"testing"
 
 	"github.com/cloudflare/pint/verifharness/corpus"
+	"github.com/cloudflare/pint/verifharness/gen"
 	"github.com/cloudflare/pint/verifharness/vstat"
 )
 
@@ -37,15 +38,55 @@ func FuzzLint(f *testing.F) {
 
 // replayFuzz handles replay files that hold a native fuzzing crasher.
 func replayFuzz(t *testing.T, path string) bool {
-	_, args, ok, err := vstat.LoadFuzzCase(path)
+	target, args, ok, err := vstat.LoadFuzzCase(path)
 	if !ok {
 		return false
 	}
-	if err != nil || len(args) != 2 {
-		t.Fatalf("bad fuzz case: %v %v", err, args)
+	if err != nil {
+		t.Fatalf("bad fuzz case: %v", err)
 	}
-	if _, err := check(fuzzCase(args[0].([]byte), uint8(args[1].(uint64)))); err != nil {
+	var c Case
+	switch {
+	case target == "FuzzRuleFields" && len(args) == 3:
+		c = fieldsCase(args[0].(string), args[1].(string), args[2].(string))
+	case len(args) == 2:
+		c = fuzzCase(args[0].([]byte), uint8(args[1].(uint64)))
+	default:
+		t.Fatalf("bad fuzz case: %v", args)
+	}
+	if _, err := check(c); err != nil {
 		t.Fatalf("%v", err)
 	}
 	return true
+}
+
+// FuzzRuleFields: coverage-guided fuzzing of the rule fields the checks look at
+// (expr, one annotation, one label value) inside an otherwise plain rule file.
+func FuzzRuleFields(f *testing.F) {
+	for i, e := range gen.ExoticExprs {
+		f.Add(e, gen.ExoticTemplates[i%len(gen.ExoticTemplates)], "page")
+	}
+	f.Fuzz(func(t *testing.T, expr, ann, label string) {
+		if len(expr)+len(ann)+len(label) > 2000 {
+			t.Skip()
+		}
+		if _, err := check(fieldsCase(expr, ann, label)); err != nil && err != errHang {
+			t.Fatalf("%v", err)
+		}
+	})
+}
+
+func fieldsCase(expr, ann, label string) Case {
+	root := gen.Map(gen.KV("groups", gen.Seq(gen.Map(
+		gen.KV("name", gen.P("g")),
+		gen.KV("rules", gen.Seq(
+			gen.Map(gen.KV("alert", gen.P("A")), gen.KV("expr", gen.DQ(expr)), gen.KV("for", gen.P("5m")),
+				gen.KV("labels", gen.Map(gen.KV("severity", gen.DQ(label)))),
+				gen.KV("annotations", gen.Map(gen.KV("summary", gen.DQ(ann))))),
+			gen.Map(gen.KV("record", gen.P("a:b")), gen.KV("expr", gen.DQ(expr))),
+		)),
+	))))
+	c := Case{Origin: "fuzz-fields"}
+	c.set(gen.Emit(root))
+	return c
 }
